@@ -23,6 +23,9 @@ def norm(e, clone_transparent=False):
         if e[1].endswith(('ops::index::Index::index', 'ops::index::IndexMut::index_mut')) and len(args) == 2 and args[1][0] == 'call' \
                 and args[1][1].endswith('MatrixCoordinates::new') and len(args[1][2]) == 2:
             return ('idx', ('call', e[1], (args[0], args[1][2][0])), args[1][2][1])
+        # cond.then_some(v) is `if cond { Some(v) } else { None }` (v is evaluated either way; it has no effects in a recovered expression)
+        if e[1].endswith('bool::then_some') and len(args) == 2:
+            return ('ite', args[0], ('agg', ('adt', 'core::option::Option', 'Some', ('0',)), (args[1],)), ('agg', ('adt', 'core::option::Option', 'None', ()), ()))
         return ('call', e[1], args)
     if t == 'fld' and isinstance(e[1], tuple) and e[1] and e[1][0] == 'down' and str(e[2]) == '0':
         inner = norm(e[1][1], clone_transparent)
